@@ -759,6 +759,20 @@ pub fn plan_c06(thorough: bool) -> Plan {
                     o.push(json!({"cw": batch}));
                     cse["ops"] = Value::Array(o);
                 }
+                // the same batches as a witnessed session layered on an uncommitted overlay that
+                // has rewritten / deleted some of the keys
+                if cc == 1 && !warm && (seed == "leaf" || seed == "cl12x20") {
+                    for cse in cs.clone().iter() {
+                        let ops = cse["ops"].as_array().unwrap();
+                        let batch = ops.last().unwrap()["cw"].clone();
+                        let mut n = cse.clone();
+                        n["ops"] = json!([
+                            {"ov": {"id": 0, "on": [], "b": [w(0, 7), del(1), w(3, 2)]}},
+                            {"ov": {"id": 1, "on": [0], "b": batch, "w": true}},
+                        ]);
+                        cases.push(n);
+                    }
+                }
                 cases.extend(cs);
             }
         }
@@ -797,7 +811,7 @@ pub fn plan_c06(thorough: bool) -> Plan {
     sort_by_bound(&mut cases);
     let mut p = Plan::new(
         cases,
-        "histx: for prior states {3 colliding keys, leaf seed, 20-key merkle cluster, 1500 random keys} × commit workers {1,2,3} × warm-up {off,on}: every sorted batch with ≤B non-trivial per-key actions {read, write, read-then-write, delete, read-then-delete} over a 6–7 key universe of present and absent keys (several keys on one terminal, keys in different root-child ranges); plus, with 3 and 5 (thorough 6, 7) workers, every batch of ≤3 actions over 10 keys placed on both sides of the workers' range boundaries in a two-leaf trie (one terminal spans several workers' ranges); plus every batch of ≤3 {read, write, delete} over ten present keys that share one depth-1 page at mixed depths (DEEP); the session runs with witnessing on; oracle: every witnessed path verifies against the previous root (= reference root), every witnessed read attests exactly the value hash the session observed and is confirmed by its path, every written key is covered with the right value hash and in scope of its path, and proof::verify_update over the witnessed writes = FinishedSession::root = reference root of the updated set.",
+        "histx: for prior states {3 colliding keys, leaf seed, 20-key merkle cluster, 1500 random keys} × commit workers {1,2,3} × warm-up {off,on}: every sorted batch with ≤B non-trivial per-key actions {read, write, read-then-write, delete, read-then-delete} over a 6–7 key universe of present and absent keys (several keys on one terminal, keys in different root-child ranges); plus, with 3 and 5 (thorough 6, 7) workers, every batch of ≤3 actions over 10 keys placed on both sides of the workers' range boundaries in a two-leaf trie (one terminal spans several workers' ranges); plus the leaf / cluster batches as a witnessed session layered on an uncommitted overlay that rewrote and deleted universe keys; plus every batch of ≤3 {read, write, delete} over ten present keys that share one depth-1 page at mixed depths (DEEP); the session runs with witnessing on; oracle: every witnessed path verifies against the previous root (= reference root), every witnessed read attests exactly the value hash the session observed and is confirmed by its path, every written key is covered with the right value hash and in scope of its path, and proof::verify_update over the witnessed writes = FinishedSession::root = reference root of the updated set.",
     );
     p.budget_s = if thorough { 1700 } else { 55 };
     p
